@@ -219,7 +219,15 @@ var clientNetPool = []ent{e4("c0a80000", 16), e4("0a000000", 8), e6("20010db8000
 	e6("00000000000000000000000000000000", 0), e6("00000000000000000000000000000000", 1), e6("00000000000000000000000000000000", 64),
 	e6("00000000000000000000000000000000", 80), e6("00000000000000000000ffff00000000", 96), e4("00000000", 0)}
 
-var zonePool = []string{"example.org", "Example.ORG.", " corp.test. ", "", "org", "deep.sub.example.net.", "\tx.y.\n", "."}
+var zonePool = []string{"example.org", "Example.ORG.", " corp.test. ", "", "org", "deep.sub.example.net.", "\tx.y.\n", ".",
+	// zones whose labels need escaping, written the way the library renders them
+	"a\\.b.example.org", "sp\\ ace.test.", "\\000x.test", "X\\@y.Corp.TEST", "q\\\"uote.test", "\\233t\\233.test."}
+
+// names (as label lists) under, next to and around the escaped zones
+var escNamePool = [][]string{
+	{"host", "a.b", "example", "org"}, {"a.b", "example", "org"}, {"b", "example", "org"}, {"a", "b", "example", "org"},
+	{"sp ace", "test"}, {"www", "SP ACE", "test"}, {"space", "test"}, {"\x00x", "test"}, {"h", "\x00X", "test"}, {"000x", "test"},
+	{"x@y", "corp", "test"}, {"m", "X@Y", "corp", "test"}, {"q\"uote", "test"}, {"\xe9t\xe9", "test"}, {"w", "\xe9T\xe9", "test"}}
 
 var qnamePool = []string{"host.example.net.", "www.example.org.", "example.org.", "WWW.EXAMPLE.ORG.", "badexample.org.", "host.badexample.org.",
 	"a.corp.test.", "corp.test.", "xcorp.test.", "org.", "example.org.evil.", "v.deep.sub.example.net.", "sub.example.net.", "x.y.", "ax.y.", "host.Example.Org."}
@@ -564,6 +572,13 @@ func genServe(r *vlib.R, g *genCfg, emit func(string)) int {
 	ar := genAResp(r, pickWeighted(r, []int{40, 20, 6, 6, 8, 3})) + ";" + genSection(r, true) + ";" + genSection(r, true)
 	n := 0
 	qf, isWire := qnameField(r, qname, true)
+	if r.Chance(1, 8) {
+		var ls [][]byte
+		for _, l := range vlib.Pick(r, escNamePool) {
+			ls = append(ls, []byte(l))
+		}
+		qf, isWire = "w:"+hx(wireOf(ls)), true
+	}
 	emit(fmt.Sprintf("d64 serve %s %s %d %d %s %s %s", client, flags7(r, internal, rd, cd, wx, isWire), qclass, qtype, qf, down, ar))
 	n++
 	// follow up: the PTR query for the embedding of the first A record
